@@ -272,9 +272,13 @@ fn main() {
             println!("MIRRORSTATS {}", stats);
         }
         "macros" => {
-            let (fails, compared) = bourse_verif_harness::simcheck::macro_checks(num(&m, "seed", 1), num(&m, "rounds", 5));
-            for f in &fails { println!("MACROFAIL {}", f); }
-            println!("MACROSTATS {{\"shapes\":12,\"calls_compared\":{}}}", compared);
+            match std::panic::catch_unwind(|| bourse_verif_harness::simcheck::macro_checks(num(&m, "seed", 1), num(&m, "rounds", 5))) {
+                Ok((fails, compared)) => {
+                    for f in &fails { println!("MACROFAIL {}", f); }
+                    println!("MACROSTATS {{\"shapes\":12,\"calls_compared\":{}}}", compared);
+                }
+                Err(_) => { println!("MACROFAIL the simulation aborted (panic) while a derived agent set was updated"); println!("MACROSTATS {{\"shapes\":12,\"calls_compared\":0}}"); }
+            }
         }
         "agents-random" => {
             use bourse_verif_harness::agentdrive::*;
@@ -321,9 +325,10 @@ fn main() {
             }
         }
         "shuffle-stats" => {
-            let (fails, summary) = bourse_verif_harness::shufstats::run(num(&m, "small", 200000), num(&m, "large", 50000), num(&m, "seed", 1));
-            for f in &fails { println!("STATFAIL {}", f); }
-            println!("STATS {}", summary);
+            match std::panic::catch_unwind(|| bourse_verif_harness::shufstats::run(num(&m, "small", 200000), num(&m, "large", 50000), num(&m, "seed", 1))) {
+                Ok((fails, summary)) => { for f in &fails { println!("STATFAIL {}", f); } println!("STATS {}", summary); }
+                Err(_) => { println!("STATFAIL an environment step aborted (panic) on a batch of plain limit orders and cancellations"); println!("STATS []"); }
+            }
         }
         "replay" => {
             let f = std::fs::File::open(m.get("file").expect("--file")).unwrap();
